@@ -771,8 +771,11 @@ Section PROOFS.
     | KUnwrap UMin | KAggOp AMin => fun a n => if vltb x a || veqb n v0 then (x, v1) else (a, n)
     | KUnwrap UFirst => fun a n => if veqb n v0 then (x, v1) else (a, n)
     | KUnwrap ULast => fun _ _ => (x, v1)
+    | KLra LAbsent => fun _ _ => (v0, v0)                      (* absent_over_time: the bucket is cleared *)
     | _ => fun a n => (a, n)
     end.
+  (* the two cells of a fresh bucket: (0, 0), and (1, 1) for absent_over_time (initStream) *)
+  Definition init_cell (k : agg_kind) : V * V := match k with KLra LAbsent => (v1, v1) | _ => (v0, v0) end.
 
   Definition in_window (c : ctx) (dur : Z) (e : entry) : Prop :=
     0 < dur /\ c_from c <= e_ts V e < c_from c + stream_len c dur * dur.
@@ -788,7 +791,7 @@ Section PROOFS.
   Notation agg_add := (agg_add V v0 v1 vadd vltb veqb vofZ).
 
   Lemma agg_add_in_window k c dur e l :
-    agg_specified k = true -> in_window c dur e -> Z.of_nat (List.length l) = 2 * stream_len c dur ->
+    agg_covered k = true -> in_window c dur e -> Z.of_nat (List.length l) = 2 * stream_len c dur ->
     agg_add k c dur e l = Ok (upd2 l (Z.to_nat (bucket_of V c dur e)) (upd_of k e)).
   Proof.
     intros Hk Hw Hl. pose proof (bucket_in_window c dur e Hw) as Hb. unfold bucket_of in *.
@@ -799,7 +802,10 @@ Section PROOFS.
     assert (HB : forall f, bucket_upd V v0 l (q * 2) f = Ok (upd2 l (Z.to_nat q) f)).
     { intros f. unfold bucket_upd, upd2. rewrite Hr, Hn. destruct (f _ _); reflexivity. }
     destruct k as [fn|fn|fn]; destruct fn; try discriminate Hk; cbn [InternalEngine.agg_add lra_add uagg_add aggop_add upd_of];
-      fold q; try (rewrite HB; reflexivity); unfold aggop_add; fold q; lazy zeta;
+      fold q; try (rewrite HB; reflexivity);
+      try (replace ((0 <=? q * 2) && (q * 2 <? Z.of_nat (List.length l))) with true
+             by (symmetry; apply andb_true_iff; split; [apply Z.leb_le; lia|apply Z.ltb_lt; lia]); rewrite HB; reflexivity);
+      unfold aggop_add; fold q; lazy zeta;
       (replace ((q <? 0) || (Z.of_nat (List.length l) <? q * 2)) with false
          by (symmetry; apply orb_false_iff; split; [apply Z.ltb_ge; lia|apply Z.ltb_ge; lia]));
       lazy beta iota zeta; rewrite HB; reflexivity.
@@ -821,7 +827,7 @@ Section PROOFS.
   Definition sel (c : ctx) (dur : Z) (f : N) (b : nat) (l : list entry) : list entry :=
     filter (fun e => N.eqb (e_fp V e) f && Nat.eqb (bkt c dur e) b) l.
   Definition fold_cell (k : agg_kind) (es : list entry) : V * V :=
-    fold_left (fun acc e => upd_of k e (fst acc) (snd acc)) es (v0, v0).
+    fold_left (fun acc e => upd_of k e (fst acc) (snd acc)) es (init_cell k).
 
   (* the invariant of the aggregator state after the entries `seen` *)
   Definition cells_inv (k : agg_kind) (c : ctx) (dur : Z) (ss : streams V) (seen : list entry) : Prop :=
@@ -836,21 +842,33 @@ Section PROOFS.
   Lemma sel_app c dur f b l1 l2 : sel c dur f b (l1 ++ l2) = sel c dur f b l1 ++ sel c dur f b l2.
   Proof. apply filter_app. Qed.
 
-  Lemma cell_repeat n b : cell (repeat v0 n) b = (v0, v0).
-  Proof. unfold cell, getv. now rewrite !nth_repeat. Qed.
+  Lemma nth_repeat_any (x : V) : forall n i, nth i (repeat x n) v0 = if Nat.ltb i n then x else v0.
+  Proof.
+    induction n as [|n IH]; intros [|i]; cbn [repeat nth]; try reflexivity.
+    rewrite IH. reflexivity.
+  Qed.
+  Lemma cell_repeat x n b : (S (2 * b) < n)%nat -> cell (repeat x n) b = (x, x).
+  Proof.
+    intros H. unfold cell, getv. rewrite !nth_repeat_any.
+    replace (Nat.ltb (2 * b) n) with true by (symmetry; apply Nat.ltb_lt; lia).
+    replace (Nat.ltb (S (2 * b)) n) with true by (symmetry; apply Nat.ltb_lt; lia). reflexivity.
+  Qed.
 
   Notation agg_on_entry := (agg_on_entry V v0 v1 vadd vltb veqb vofZ).
 
   Lemma agg_step k c dur ss seen e ss' e' :
-    agg_specified k = true -> e_err V e = ENone -> in_window c dur e ->
+    agg_covered k = true -> e_err V e = ENone -> in_window c dur e ->
     cells_inv k c dur ss seen -> agg_on_entry k c dur ss e = Ok (ss', e') ->
     cells_inv k c dur ss' (seen ++ [e]) /\ e' = e.
   Proof.
     intros Hk He Hw Inv Hstep. unfold InternalEngine.agg_on_entry in Hstep. rewrite He in Hstep.
     pose proof (bucket_in_window c dur e Hw) as Hb.
-    assert (Hnew : new_values V v0 v1 k c dur = Ok (repeat v0 (Z.to_nat (stream_len c dur * 2)))).
+    assert (Hnew : new_values V v0 v1 k c dur = Ok (repeat (fst (init_cell k)) (Z.to_nat (stream_len c dur * 2))) /\
+                   init_cell k = (fst (init_cell k), fst (init_cell k))).
     { unfold new_values. replace (stream_len c dur * 2 <? 0) with false by (symmetry; apply Z.ltb_ge; lia).
-      destruct k as [fn|fn|fn]; try reflexivity. destruct fn; try reflexivity. discriminate Hk. }
+      replace (stream_len c dur * 2 =? 0) with false by (symmetry; apply Z.eqb_neq; lia).
+      destruct k as [fn|fn|fn]; try (split; reflexivity). destruct fn; split; reflexivity. }
+    destruct Hnew as [Hnew Hinit].
     set (fe := e_fp V e) in *.
     (* the stream the entry lands in, before the update *)
     assert (Hs : exists s0, (match streams_find V ss fe with Some s => Ok s | None =>
@@ -864,8 +882,8 @@ Section PROOFS.
         exists e0, (rest ++ [e]). split; [|exact L]. rewrite proj_app, P. cbn [proj filter]. unfold fe. now rewrite N.eqb_refl.
       - destruct (2000 <=? Z.of_nat (List.length ss)); [discriminate|]. rewrite Hnew in *. eexists. split; [reflexivity|].
         cbn [s_values s_labels]. split; [rewrite repeat_length; lia|]. split.
-        + intros b _. rewrite cell_repeat. unfold sel.
-          replace (filter _ seen) with (@nil entry); [reflexivity|].
+        + intros b Hbb. rewrite cell_repeat by lia. unfold sel.
+          replace (filter _ seen) with (@nil entry); [unfold fold_cell; cbn [fold_left]; now rewrite <- Hinit|].
           symmetry. clear - Inv. unfold proj in Inv. induction seen as [|x r IH]; [reflexivity|]. cbn [filter] in *.
           destruct (N.eqb (e_fp V x) fe); [discriminate|]. cbn [andb]. now apply IH.
         + exists e, []. split; [|reflexivity]. rewrite proj_app, Inv. cbn [proj filter app]. unfold fe. now rewrite N.eqb_refl. }
@@ -889,7 +907,7 @@ Section PROOFS.
   Definition agg_input_ok (c : ctx) (dur : Z) (l : list entry) : Prop :=
     Forall (fun e => e_err V e = ENone /\ in_window c dur e) l.
 
-  Lemma agg_fold k c dur : agg_specified k = true -> forall l ss seen ss' l',
+  Lemma agg_fold k c dur : agg_covered k = true -> forall l ss seen ss' l',
     agg_input_ok c dur l -> cells_inv k c dur ss seen ->
     fold_entries V (agg_ops V v0 v1 vadd vdiv vltb veqb vofZ k c dur) ss l = Ok (ss', l') ->
     cells_inv k c dur ss' (seen ++ l) /\ l' = l.
@@ -1082,7 +1100,7 @@ Section PROOFS.
   Qed.
 
   (* the output of an aggregation stage that did not fail, one fingerprint at a time *)
-  Lemma agg_output k c dur l ss l' : agg_specified k = true -> agg_input_ok c dur l -> 0 <= stream_len c dur ->
+  Lemma agg_output k c dur l ss l' : agg_covered k = true -> agg_input_ok c dur l -> 0 <= stream_len c dur ->
     fold_entries V (agg_ops' k c dur) [] l = Ok (ss, l') ->
     forall f, proj f (List.concat (wrap (agg_ops' k c dur) [] [l])) =
               match proj f l with [] => [] | e0 :: _ => series_out k c dur f (e_lbl V e0) l end.
@@ -1155,7 +1173,7 @@ Section PROOFS.
     Proof.
       intros Hk Hne. destruct es as [|e0 r]; [contradiction|]. unfold fold_cell.
       assert (NE : e0 :: r <> []) by discriminate.
-      destruct k as [fn|fn|fn]; destruct fn; try discriminate Hk; cbn [upd_of sem_bucket_value fin_fn].
+      destruct k as [fn|fn|fn]; destruct fn; try discriminate Hk; cbn [upd_of sem_bucket_value fin_fn init_cell].
       - (* rate *) rewrite (fold_const_counter (fun a _ => vadd a v1)) by exact NE. cbn [fst snd]. split; [exact H01|].
         unfold vcount. now rewrite fold_left_map'.
       - (* count_over_time *) rewrite (fold_const_counter (fun a _ => vadd a v1)) by exact NE. cbn [fst snd]. split; [exact H01|].
@@ -1230,14 +1248,56 @@ Section PROOFS.
       rewrite IH. replace (Z.of_nat i + 1) with (Z.of_nat (S i)) by lia. rewrite Hsel.
       set (es := filter (fun e => bucket_of V c dur e =? Z.of_nat i) (filter (fun e => lbls_eqb (lbl_of V e) m) l)).
       destruct es as [|e0 r] eqn:Ees.
-      - unfold fold_cell. cbn [fold_left snd]. rewrite H00. reflexivity.
+      - unfold fold_cell. cbn [fold_left].
+        replace (init_cell k) with (v0, v0) by (destruct k as [fn|fn|fn]; try reflexivity; destruct fn; try reflexivity; discriminate Hk).
+        cbn [snd]. rewrite H00. reflexivity.
       - assert (NE : e0 :: r <> []) by discriminate. destruct (bucket_value k dur (e0 :: r) Hk NE) as [P Q].
         rewrite P, Q. cbn [app]. unfold mk_out. now rewrite Hf.
     Qed.
 
+    (* absent_over_time: 1 in every bucket of a seen series that holds no entry *)
+    Lemma series_sem_absent c dur m f l : f = fpf m ->
+      (forall e, In e l -> N.eqb (e_fp V e) f = lbls_eqb (lbl_of V e) m) ->
+      (forall e, In e l -> 0 <= bucket_of V c dur e) ->
+      series_out (KLra LAbsent) c dur f (Some m) l =
+      sem_buckets V v0 v1 vadd vdiv vltb vofZ fpf (KLra LAbsent) c dur m (filter (fun e => lbls_eqb (lbl_of V e) m) l) 0 (Z.to_nat (stream_len c dur)).
+    Proof.
+      intros Hf Hfaith Hb. unfold series_out.
+      assert (Hsel : forall b, sel c dur f b l = filter (fun e => bucket_of V c dur e =? Z.of_nat b) (filter (fun e => lbls_eqb (lbl_of V e) m) l)).
+      { intros b. unfold sel. clear - Hfaith Hb. induction l as [|e r IH]; [reflexivity|]. cbn [filter].
+        rewrite (Hfaith e (or_introl eq_refl)). assert (Hb0 := Hb e (or_introl eq_refl)).
+        assert (E : Nat.eqb (bkt c dur e) b = (bucket_of V c dur e =? Z.of_nat b)).
+        { unfold bkt. destruct (Nat.eqb_spec (Z.to_nat (bucket_of V c dur e)) b) as [H|H]; destruct (Z.eqb_spec (bucket_of V c dur e) (Z.of_nat b)) as [H'|H']; try reflexivity; lia. }
+        rewrite IH; [|intros x Hx; apply Hfaith; now right|intros x Hx; apply Hb; now right].
+        destruct (lbls_eqb (lbl_of V e) m); cbn [andb filter]; [rewrite E; reflexivity|reflexivity]. }
+      generalize (Z.to_nat (stream_len c dur)) as n. intros n.
+      assert (G : forall i, flat_map (fun b => let an := fold_cell (KLra LAbsent) (sel c dur f b l) in
+                     if vltb v0 (snd an) then [mk_out c dur f (Some m) (Z.of_nat b) (fin_fn (KLra LAbsent) dur (fst an) (snd an))] else []) (seq i n) =
+                  sem_buckets V v0 v1 vadd vdiv vltb vofZ fpf (KLra LAbsent) c dur m (filter (fun e => lbls_eqb (lbl_of V e) m) l) (Z.of_nat i) n);
+        [|exact (G 0%nat)].
+      induction n as [|n IH]; intros i; [reflexivity|]. cbn [seq flat_map sem_buckets].
+      rewrite IH. replace (Z.of_nat i + 1) with (Z.of_nat (S i)) by lia. rewrite Hsel.
+      destruct (filter (fun e => bucket_of V c dur e =? Z.of_nat i) (filter (fun e => lbls_eqb (lbl_of V e) m) l)) as [|e0 r].
+      - unfold fold_cell. cbn [fold_left init_cell snd fst fin_fn]. rewrite H01. cbn [app]. unfold mk_out. now rewrite Hf.
+      - assert (F : forall es a, fold_left (fun acc (e : entry) => upd_of (KLra LAbsent) e (fst acc) (snd acc)) es a = match es with [] => a | _ => (v0, v0) end).
+        { induction es as [|x es' IHe]; intros a; [reflexivity|]. cbn [fold_left upd_of]. rewrite IHe. now destruct es'. }
+        unfold fold_cell. rewrite F. cbn [snd]. rewrite H00. reflexivity.
+    Qed.
+
+    Lemma series_sem_covered k c dur m f l : agg_covered k = true -> f = fpf m ->
+      (forall e, In e l -> N.eqb (e_fp V e) f = lbls_eqb (lbl_of V e) m) ->
+      (forall e, In e l -> 0 <= bucket_of V c dur e) ->
+      series_out k c dur f (Some m) l =
+      sem_buckets V v0 v1 vadd vdiv vltb vofZ fpf k c dur m (filter (fun e => lbls_eqb (lbl_of V e) m) l) 0 (Z.to_nat (stream_len c dur)).
+    Proof.
+      intros Hk. unfold agg_covered in Hk. destruct (agg_specified k) eqn:Hs.
+      - now apply series_sem.
+      - destruct k as [fn|fn|fn]; try discriminate Hk. destruct fn; try discriminate Hk. apply series_sem_absent.
+    Qed.
+
     (* the aggregation stage against the reference, one series (label set) at a time, for every batching *)
     Lemma agg_meets_definition k c dur bs ss l' m e0 rest :
-      agg_specified k = true -> agg_input_ok c dur (List.concat bs) ->
+      agg_covered k = true -> agg_input_ok c dur (List.concat bs) ->
       fold_entries V (agg_ops' k c dur) [] (List.concat bs) = Ok (ss, l') ->
       (forall e, In e (List.concat bs) -> N.eqb (e_fp V e) (fpf m) = lbls_eqb (lbl_of V e) m) ->
       proj (fpf m) (List.concat bs) = e0 :: rest -> e_lbl V e0 = Some m ->
@@ -1252,7 +1312,7 @@ Section PROOFS.
         unfold agg_input_ok in Hin. rewrite Forall_forall in Hin. destruct (Hin e0 He0) as [_ Hw].
         pose proof (bucket_in_window c dur e0 Hw). lia. }
       rewrite (agg_output k c dur (List.concat bs) ss l' Hk Hin HN Hf (fpf m)), P, L.
-      apply series_sem; [exact Hk|reflexivity|exact Hfaith|].
+      apply series_sem_covered; [exact Hk|reflexivity|exact Hfaith|].
       intros e He. unfold agg_input_ok in Hin. rewrite Forall_forall in Hin. destruct (Hin e He) as [_ Hw].
       pose proof (bucket_in_window c dur e Hw). lia.
     Qed.
